@@ -303,6 +303,41 @@ fn run_case(s: &mut Suite, cli: &str, aws: bool, n: usize, o: &Opts) {
 	let _ = std::fs::remove_dir_all(&base);
 }
 
+/// the tool as one more way parameters reach the writers: a few option sets (both purpose flags in
+/// either order, names with commas, white space, upper case, address-like texts, subject strings
+/// outside the PrintableString alphabet) through the same comparison with the model as C18's own
+/// run, reported under the property `prop` — what the end-entity certificate says is what the
+/// options say
+pub fn tool_says_what_it_is_told(s: &mut Suite, prop: &str) {
+	let aws = cfg!(feature = "aws");
+	let Ok(cli) = std::env::var("VERIF_CLI") else { return };
+	if !std::path::Path::new(&cli).exists() {
+		return;
+	}
+	let base = Opts { alg: "default", client: false, server: false, cert: "cert".into(), ca: "root-ca".into(), san: vec![], cn: None, country: None, org: None, dir_exists: true, dir_leaf: b"out".to_vec(), prior: None };
+	let mut cases: Vec<Opts> = Vec::new();
+	for (c, sv) in [(true, true), (true, false), (false, true), (false, false)] {
+		cases.push(Opts { client: c, server: sv, san: vec!["example.com".into(), "192.0.2.1".into()], ..base.clone() });
+	}
+	cases.push(Opts { san: vec!["a,b.example".into(), "10.0.0.1,10.0.0.2".into(), "trailing.example,".into(), "UPPER.Example".into(), " lead.example".into(), "semi;colon.example".into()], server: true, ..base.clone() });
+	cases.push(Opts { san: vec!["ops@crabs.example".into(), "spiffe://x/y".into(), "2001:db8::1".into(), "1.2.3".into()], client: true, ..base.clone() });
+	cases.push(Opts { cn: Some("Straße, Ltd.".into()), org: Some("a,b=c+d".into()), country: Some("DE".into()), ..base.clone() });
+	cases.push(Opts { country: Some("D,E".into()), ..base.clone() });
+	cases.push(Opts { country: Some("B*R".into()), ..base.clone() });
+	cases.push(Opts { country: Some("Côte".into()), ..base.clone() });
+	let before_v = s.rep.violations.len();
+	let before_d = s.rep.disagreements.len();
+	for (i, o) in cases.iter().enumerate() {
+		run_case(s, &cli, aws, 9000 + i, o);
+	}
+	for f in s.rep.violations[before_v..].iter_mut().chain(s.rep.disagreements[before_d..].iter_mut()) {
+		if f.key.starts_with("C18:") {
+			f.key = format!("{}:tool:{}", prop, &f.key[4..]);
+		}
+	}
+	s.rep.exhaustive.push("the command-line tool on 10 option sets (both purpose flags in each combination, names with commas / white space / upper case / address-like texts, subject strings inside and outside the PrintableString alphabet) through the comparison with the model of C18".into());
+}
+
 pub fn run(ctx: &mut Ctx) -> Report {
 	let rule = "option sets for the real binary: each key algorithm of the build (and those it lacks), 0..6 names mixing DNS / IPv4 / IPv6 and look-alikes, arbitrary common / country / organisation strings incl. non-printable and non-ASCII, both purpose flags, base names, existing and non-existing output directories; plus the name classifier alone over a larger set of literals through CertificateParams::new; non-trivial = one option set";
 	let mut s = Suite::new(ctx, "C18", rule);
